@@ -46,6 +46,11 @@ pub(crate) fn r#enum_def(s: &ItemEnum) -> syn::Result<DerivedTS> {
         )?;
     }
 
+    // every variant is skipped: nothing can be serialized, like an enum without variants
+    if formatted_variants.is_empty() {
+        return Ok(empty_enum(name, enum_attr));
+    }
+
     Ok(DerivedTS {
         crate_rename,
         inline: quote!([#(#formatted_variants),*].join(" | ")),
